@@ -246,7 +246,7 @@ func (c *Check) replayFindings() {
 	for p := range tv {
 		pkgs[p] = true
 	}
-	validated, mismatches := 0, 0
+	validated, mismatches, skipped := 0, 0, 0
 	for pkg := range pkgs {
 		var cases []replayCase
 		fs := byPkg[pkg]
@@ -330,6 +330,10 @@ func (c *Check) replayFindings() {
 			o := outs[nf+i]
 			if o.Done && len(o.Fails) == 0 && o.Panic == "" && !o.Assume && equalStrs(o.Covers, tc.ExpectCovers) {
 				validated++
+			} else if o.Assume {
+				// the sampled model could not be turned into an object the real encoder / parser accepts: nothing
+				// was compared (neither a validation nor a mismatch)
+				skipped++
 			} else {
 				mismatches++
 				c.Inconclusive = append(c.Inconclusive, fmt.Sprintf("translator validation mismatch in %s: engine covers %v, native: %s", tc.Label, tc.ExpectCovers, strings.ReplaceAll(o.Raw, "\n", " / ")))
@@ -338,6 +342,7 @@ func (c *Check) replayFindings() {
 	}
 	c.Extra["traces_validated_against_impl"] = validated
 	c.Extra["translator_validation_mismatches"] = mismatches
+	c.Extra["translator_validation_samples_not_realisable"] = skipped
 }
 
 func lastLines(s string, n int) string {
